@@ -44,6 +44,17 @@ Definition is_line_at (nlb : byte) (content pre line post : bytes) (p : N) : Pro
   (length pre <= N.to_nat p)%nat /\
   (N.to_nat p < length pre + length line \/ (N.to_nat p = length pre + length line /\ post <> []))%nat.
 
+(* the line that contains position p in a CRLF file: content = pre ++ line ++ post where pre is empty or ends with CR LF,
+   line contains neither CR nor LF, post is empty or starts with CR LF, and p lies in the line, on its CR or on its LF *)
+Definition is_line_at_crlf (content pre line post : bytes) (p : N) : Prop :=
+  content = pre ++ line ++ post /\
+  (pre = [] \/ exists pre', pre = pre' ++ [CR; LF]) /\
+  has CR line = false /\
+  has LF line = false /\
+  (post = [] \/ exists post', post = CR :: LF :: post') /\
+  (length pre <= N.to_nat p)%nat /\
+  (N.to_nat p < length pre + length line \/ (N.to_nat p <= length pre + length line + 1 /\ post <> []))%nat.
+
 (* "the text of that line (left-trimmed, truncated at 200 bytes)": the indentation does not count *)
 Definition shown (line : bytes) : bytes :=
   let t := skipn (lead_blanks line) line in
